@@ -178,6 +178,20 @@ func c05Specs(tier string) []*h.SeqSpec {
 				vs = append(vs, gcPushMacro(w, f, repo, "X", "x")...)
 				return append(vs, gcPushMacro(w, f, repo, "I2", "t1")...)
 			}})
+			// one manifest under two tags, the older tag deleted again: the entry that carried it stays in the list without a
+			// tag, in front of the entry that still carries one (a pass that judges a digest by its first entry drops the tag)
+			// (RmDesc leaves the untagged entry behind the tagged one; removing an unrelated first entry moves the last entry
+			// to the front: [I2:t8 I1:t1 I1:t9] -> [I2:t8 I1:t1 I1:{}] -> [I1:{} I1:t1])
+			ops = append(ops, h.Op{Name: "push I2 as t8, I1 as t1 and as t9, delete tag t9, delete I2 by digest", Do: func(w *h.World) []h.Violation {
+				vs := gcPushMacro(w, f, repo, "I2", "t8")
+				vs = append(vs, gcPushMacro(w, f, repo, "I1", "t1")...)
+				vs = append(vs, gcPushMacro(w, f, repo, "I1", "t9")...)
+				w.Delete("/v2/" + repo + "/manifests/t9")
+				regM(w).Repo(repo).DeleteTag("t9")
+				w.Delete("/v2/" + repo + "/manifests/" + f.Items["I2"].Dig)
+				regM(w).Repo(repo).DeleteManifest("I2")
+				return vs
+			}})
 			// fine grained: the pieces of one image as separate steps (a collection can fall between them)
 			ops = append(ops, opPushBlob("C05", repo, f, "c"), opPushBlob("C05", repo, f, "l1"))
 			ops = append(ops, h.Op{Name: "push manifest I1 as t1 (blobs must be there)", Do: func(w *h.World) []h.Violation {
